@@ -243,6 +243,12 @@ func applyBuildLimits(b *build) {
 		knobEntangled = true
 		fmt.Printf("DefaultBlockSize is used inside expressions (%s): the block-size knob keeps to powers of two >= 64\n", strings.Join(b.instr.KnobEntangled, ", "))
 	}
+	clockUsed = b.instr.ClockWaits > 0
+	if b.clockNote != "" {
+		fmt.Println(b.clockNote)
+	} else if clockUsed {
+		fmt.Printf("the tree waits on the clock at %d call sites (files %s): simulated clock with per-run speed and injected jumps\n", b.instr.ClockWaits, strings.Join(b.instr.TimeRewrite, ", "))
+	}
 	// the tree's library code uses sync / sync/atomic: a share of the runs
 	// preempts at the edges of critical sections (site class "sync")
 	syncLib = b.instr.SyncLib > 0
